@@ -32,7 +32,7 @@ P = {
          "E3: SC interleavings of whole atomic operations, interception by type through hook H2. loom: its model of the C11 memory model; the bitmap source is copied from the tree with only the atomic import switched.", "2/C08"),
  "C09": ("model_checking", "E1-bfs", "explicit-state BFS to a fixpoint over all public bitmap operations on tiny bitmaps, BTreeSet page-set model; exhaustive ranges on word-boundary configurations",
          "Closure over all operation sequences on bitmaps of <= 6 pages (state = complete concrete bitmap state), plus every (start,len) from boundary alphabets on 63..129-page and non-power-of-two configurations; model comparison of every observable after every step; all histories of 3..4 operations over a reduced alphabet without merging states; geometries within a page of usize::MAX; clone_from into larger bitmaps.",
-         "enlarge() bounded in total growth; page sizes {1,2,3} for the closure; on the huge geometries page numbers beyond the count (also those whose address overflows) are marked and cleared and must change nothing.", "2/C09"),
+         "enlarge() bounded in total growth; page sizes {1,2,3} for the closure; on the huge geometries page numbers beyond the count (also those whose address overflows) are marked and cleared and must change nothing; marks and lookups through slice views whose base plus offset leaves the address space must agree.", "2/C09"),
  "C10": ("model_checking", "E1-bfs", "explicit-state BFS to a fixpoint over insert/remove/build on real mmap regions, interval-list model, ancestors kept alive and re-checked",
          "From every reachable map: every insert interval of the universe, every region handle already held by the map or an ancestor, every (base,size) removal, every ordered build list of <= 3 intervals and lists with a repeated handle, the same lists through from_ranges / from_ranges_with_files with shared-file windows; all constructors, file-backed too, agree at the top of the address space; documented error classes; parent and all ancestor maps re-read after every transition.",
          "Universe of 6 (quick) or 11 (thorough) cells at three bases; the map without regions (from new() and from removals) is a state of the search.", "2/C10"),
@@ -41,7 +41,7 @@ P = {
          "arc_swap internals execute for real but ArcSwap::load/store are treated as atomic steps; SC. Sequential BFS: histories of up to 3 (thorough 4) operations are expanded without merging.", "2/C11"),
  "C12": ("model_checking", "E1-bfs + interposed mmap log + compile-fail grid", "explicit-state BFS over create/share/drop histories with link-time interposed mmap/munmap log; compile-fail grid for lifetimes",
          "All histories to depth 6 (quick) or 8 (thorough) over 3 region kinds and all drop orders; mapped iff an owner is alive, munmap exactly once with the mapped (addr,len), external mappings never unmapped; the mapping log replayed as an address-space model (no page mapped for a region may outlive its owners); size sweep 1 byte .. 1 GiB (thorough 4 GiB, incl. exact multiples of 1 GiB) x drop orders of five owners; creations that fail half-way under one mmap / lseek fault leave nothing mapped; builder sweep over protections x flag words x sizes x backing (mlock/madvise/mprotect interposed and failed one at a time); std and Xen builds. A generated grid of escaping-accessor programs must be rejected by rustc while each non-escaping twin compiles.",
-         "'All client programs' rests on the enumerated grid + Rust's borrow checker. Replace histories: shrinking and growing replacements, all drop orders of the owners.", "2/C12"),
+         "'All client programs' rests on the enumerated grid + Rust's borrow checker. Replace histories: shrinking and growing replacements and copies brought up to date with clone_from, all drop orders of the owners.", "2/C12"),
  "C13": ("exploration", "exhaustive-inputs", "exhaustive enumeration of (stream length, position, buffer length) x call sequences per adapter against the std::io twin",
          "Every adapter the crate provides x every stream length 0..20, cursor position incl. past-the-end and u64::MAX, buffer length 0..20 x sequences of up to 3 (thorough 4) calls, single transfers up to 2^21 (thorough 2^24) bytes, plain and exact forms; descriptor adapters also under short and EINTR-interrupted system calls, wrong access modes and datagram sockets; same count, bytes, remaining stream state and error kind as std.",
          "TcpStream/Stdout exercised only where the sandbox allows; stream state after a failed read_exact not compared (std leaves it open); after a failed write_all it is compared.", "2/C13"),
@@ -50,13 +50,13 @@ P = {
          "Scripts up to 5 calls, EINTR runs up to 3; counts {0,1,5,8,9,13}; host byte buffers as readers and as writers (room for fewer / as many / more bytes, second transfer into the same buffer).", "2/C14"),
  "C15": ("fault_enumeration", "exhaustive-inputs + fault injection", "exhaustive enumeration of construction requests (sizes x file lengths x offsets x flag words incl. all Xen flag bytes) with injected mmap/ioctl failures, interposed mapping log",
          "Acceptance predicate from the statement; attribute echo on success; nothing left mapped on failure (interposed log); sequences of file lengths through one FileOffset lineage; every length query answered with EIO / 0 / 2^40; shared file coherence byte by byte; file offsets around 2^31, 2^32, 2^33 in a sparse file; the descriptor's cursor left anywhere; explicit flag and protection words echoed for every Xen mapping type; anonymous builder x hugetlbfs hint x sizes around 2 MiB multiples, refusals compared with the kernel's own answer; Xen: all 256 low flag bytes and every high bit, emulated devices, injected failures.",
-         "Emulated gntdev/privcmd; safe requests the OS refuses may fail. External pointers x hugetlbfs hint x every page of an arena.", "2/C15"),
+         "Emulated gntdev/privcmd; safe requests the OS refuses may fail. External pointers x hugetlbfs hint x every page of an arena; Xen UNIX-type ranges that name a file x anonymous flag words x file ranges.", "2/C15"),
  "C16": ("model_checking", "E1-bfs", "same exploration as C05 with the precision oracle (dirty set after == before U pages of written bytes)",
          "Same cases as C05; read-type operations, derivations, queries, rejected requests mark nothing; successful writes mark exactly the overlapping pages; reset / reset-range / fetch-and-clear clear exactly the named pages and report exactly what was dirty (also on bitmaps of two and three words); the failed-descriptor-read exception is encoded; descriptor reads through guest memory, the owning region and its slice.",
          "As C05; the expected page set is computed from the tracked byte size, never from the page count the bitmap reports.", "2/C05-C16"),
  "C17": ("model_checking", "exhaustive-inputs + histories on emulated grant device", "exhaustive enumeration of accessor kinds x types x counts (guards) and BFS over access histories on an emulated on-demand grant device (interposed ioctl/mmap)",
          "Guard len/ptr for every accessor kind, T of 1..16 bytes, counts 0..9; on the emulated device every access operation at page-crossing offsets must run inside windows covering all touched bytes and leave no window behind, also when any one mmap call or map-grant request of the operation fails (deviation bound 1); transfers to and from real descriptors issue read(2)/write(2) only on buffers inside a window that is live at that moment; the operations also run through slices derived by every derivation the API offers; copies from ordinary memory into the region.",
-         "gntdev emulated at the ioctl contract level; one on-demand region of 2^16+3 pages (sparse) for guards spanning more than 2^16 pages.", "2/C17"),
+         "gntdev emulated at the ioctl contract level; one on-demand region of 2^16+3 pages (sparse) for guards spanning more than 2^16 pages; array copies from / to host buffers shorter and longer than the array.", "2/C17"),
  "C18": ("exploration", "exhaustive-inputs", "exhaustive enumeration of zero-length forms x layers x address classes x ZST types (std and Xen builds)",
          "All zero-length forms at slice, region and guest-memory level (maps of no, one, two and three regions) at mapped/last/one-past/hole/0/u64::MAX addresses, empty containers, zero-sized element types; must be Ok, no panic, memory and bitmap unchanged, no device window requested; zero-count transfers with streams that report Interrupted first or refuse every call (exact forms).",
          "Panics are caught per form; aborts and faults are attributed by the signal handler; zero-sized elements also through VolatileRef / VolatileArrayRef load, store and ref_at at every offset.", "2/C18"),
